@@ -174,6 +174,12 @@ pub(crate) fn key_of_m1(s: &str) -> i32 {
 /// derived `TestAgent` and the hand-written `SelectAgent` (module `selectdef`), which has the same
 /// fields and `#[projections]`. `$m3k` is the key type of lane `m3` (i32 for the derived agent; u64
 /// for the select agent, whose `m3` shares one decoder between keys and values).
+/// Values (made by remote commands or handler acts, never the small ones `on_start` uses) whose `on_set`
+/// handler on `v2` fails with a non-fatal error.
+pub fn on_set_rejects(v: u64) -> bool {
+    (v >> 32) != 0 && (v & 0x3f) == 0x2a
+}
+
 macro_rules! define_lifecycle {
     ($lc:ident, $agent:ident, $m3k:ty) => {
         #[derive(Clone)]
@@ -348,7 +354,10 @@ macro_rules! define_lifecycle {
             #[on_set(v2)]
             fn v2_set(&self, context: HandlerContext<$agent>, value: &u64, prev: Option<u64>) -> impl EventHandler<$agent> {
                 let (rec, v) = (self.rec.clone(), *value);
-                context.effect(move || rec.lock().value_hist[1].push((ticket(), prev, v)))
+                // One command-made value in 64 is "rejected" by this handler with a non-fatal error after it has
+                // been recorded: the lane holds the value all the same, so every remote must still be told.
+                let fail = $crate::agentdef::on_set_rejects(v).then(|| context.fail::<(), _>(std::io::Error::other("scripted on_set failure")));
+                context.effect(move || rec.lock().value_hist[1].push((ticket(), prev, v))).followed_by(fail).discard()
             }
 
             #[on_update(m1)]
